@@ -1069,7 +1069,7 @@ class slice(Stream):
         self._check_end()
 
     def _check_end(self):
-        if self.end and self.state >= self.end:
+        if self.end is not None and self.state >= self.end:
             # we're done
             for upstream in self.upstreams:
                 upstream._remove_downstream(self)
